@@ -384,4 +384,56 @@ theorem seqWriters_scan_sane :
     (softmixerReach.any fun r => r.2 == "downmix_int_16bit") = true := by
   decide
 
+/-! ### monotone, saturating, sign-preserving (every accumulator value, every amplification) -/
+
+theorem shr_mono (x y : Int) (n : Nat) (h : x ≤ y) : x >>> n ≤ y >>> n := by
+  rw [Int.shiftRight_eq_div_pow, Int.shiftRight_eq_div_pow]
+  exact Int.ediv_le_ediv (Int.natCast_pos.mpr (Nat.two_pow_pos n)) h
+
+theorem clip16_mono (v w : Int) (h : v ≤ w) : clip16 v ≤ clip16 w := by
+  simp only [clip16, lim16Hi, lim16Lo]
+  by_cases h1 : v > 32767 <;> by_cases h2 : v < -32768 <;> by_cases h3 : w > 32767 <;> by_cases h4 : w < -32768 <;>
+    simp only [h1, h2, h3, h4, if_true, if_false] <;> omega
+
+theorem clip8_mono (v w : Int) (h : v ≤ w) : clip8 v ≤ clip8 w := by
+  simp only [clip8, lim8Hi, lim8Lo]
+  by_cases h1 : v > 127 <;> by_cases h2 : v < -128 <;> by_cases h3 : w > 127 <;> by_cases h4 : w < -128 <;>
+    simp only [h1, h2, h3, h4, if_true, if_false] <;> omega
+
+theorem d16_mono (amp : Nat) (x y : Int) (h : x ≤ y) : d16 amp 0 x ≤ d16 amp 0 y := by
+  rw [d16_zero, d16_zero]; exact clip16_mono _ _ (shr_mono x y _ h)
+
+theorem d8_mono (amp : Nat) (x y : Int) (h : x ≤ y) : d8 amp 0 x ≤ d8 amp 0 y := by
+  rw [d8_zero, d8_zero]; exact clip8_mono _ _ (shr_mono x y _ h)
+
+/-- `x >> n` compared with a threshold: floor division -/
+theorem shr_ge_iff (x : Int) (n : Nat) (t : Int) : t ≤ x >>> n ↔ t * 2 ^ n ≤ x := by
+  have hd : (0 : Int) < ((2 ^ n : Nat) : Int) := Int.natCast_pos.mpr (Nat.two_pow_pos n)
+  have e : ((2 ^ n : Nat) : Int) = (2 : Int) ^ n := by simp
+  rw [Int.shiftRight_eq_div_pow, Int.le_ediv_iff_mul_le hd, e]
+
+theorem shr_lt_iff (x : Int) (n : Nat) (t : Int) : x >>> n < t ↔ x < t * 2 ^ n := by
+  have := shr_ge_iff x n t
+  omega
+
+theorem clip16_eq (v : Int) : clip16 v = max lim16Lo (min lim16Hi v) := by
+  simp only [clip16, lim16Hi, lim16Lo]
+  by_cases h1 : v > 32767 <;> by_cases h2 : v < -32768 <;> simp only [h1, h2, if_true, if_false] <;> omega
+
+theorem clip8_eq (v : Int) : clip8 v = max lim8Lo (min lim8Hi v) := by
+  simp only [clip8, lim8Hi, lim8Lo]
+  by_cases h1 : v > 127 <;> by_cases h2 : v < -128 <;> simp only [h1, h2, if_true, if_false] <;> omega
+
+theorem clip16_neg_iff (v : Int) : clip16 v < 0 ↔ v < 0 := by
+  simp only [clip16, lim16Hi, lim16Lo]
+  by_cases h1 : v > 32767 <;> by_cases h2 : v < -32768 <;> simp only [h1, h2, if_true, if_false] <;> omega
+
+theorem clip8_neg_iff (v : Int) : clip8 v < 0 ↔ v < 0 := by
+  simp only [clip8, lim8Hi, lim8Lo]
+  by_cases h1 : v > 127 <;> by_cases h2 : v < -128 <;> simp only [h1, h2, if_true, if_false] <;> omega
+
+theorem shr_neg_iff (x : Int) (n : Nat) : x >>> n < 0 ↔ x < 0 := by
+  have := shr_lt_iff x n 0
+  simpa using this
+
 end Xmp.Downmix
